@@ -167,7 +167,17 @@ func (ex *Exec) assume(c *Term) {
 	ex.pc = append(ex.pc, c)
 }
 
+// checkBudget abandons the current path once the harness's wall budget (plus a
+// grace period) is used up; the path is reported as not discharged.
+func (ex *Exec) checkBudget() {
+	if d := ex.w.cfg.Deadline; !d.IsZero() && time.Since(d) > 60*time.Second && ex.w.initExec != ex {
+		ex.w.run.noteBudgetAbort()
+		panic(stopf(StopUnknown, "wall budget of the harness exhausted while this path was running"))
+	}
+}
+
 func (ex *Exec) feasible(c *Term) Result {
+	ex.checkBudget()
 	if c.IsConst() {
 		if c.c != 0 {
 			return Sat
